@@ -48,7 +48,33 @@ type chainCase struct {
 	PanicVal  string `json:"panicVal"`  // "" (a string) | abort (http.ErrAbortHandler) | err | int : the value panics are raised with
 	Copy      bool   `json:"copy"`      // targets stream with io.Copy into the writer below the Response (io.ReaderFrom fast paths)
 	RouteFlip bool   `json:"routeFlip"` // a copy of the OTHER route (from WebService.Routes()) gets the opposite encoding setting at run time
+	ReadPanic bool   `json:"readPanic"` // the request carries a gzip entity; the target reads it and the entity's own UnmarshalJSON panics
 }
+
+// panicky: user code below Request.ReadEntity that panics
+type panicky struct{}
+
+func (p *panicky) UnmarshalJSON(b []byte) error {
+	if curLog != nil {
+		curLog.add(devent{K: "panic", F: 0})
+	}
+	panic("target-panic-in-unmarshal")
+}
+
+// bufferWriter: what a buffering filter puts in place of Response.ResponseWriter
+type bufferWriter struct {
+	hdr    http.Header
+	status int
+	buf    bytes.Buffer
+}
+
+func (b *bufferWriter) Header() http.Header { return b.hdr }
+func (b *bufferWriter) WriteHeader(s int) {
+	if b.status == 0 {
+		b.status = s
+	}
+}
+func (b *bufferWriter) Write(p []byte) (int, error) { return b.buf.Write(p) }
 
 var errPanicValue = fmt.Errorf("target-panic-error-value")
 
@@ -180,11 +206,14 @@ func (t trapSink) Write(b []byte) (int, error) {
 }
 
 type ledgerProvider struct {
-	inner restful.CompressorProvider
-	mu    sync.Mutex
-	ids   map[interface{}]int
-	cur   *reqLog // sequential drivers: the request in flight
-	trap  bool
+	// readerKinds: decompressors of request bodies are logged as racq / rrel (the monitor of the dispatch family
+	// allows one COMPRESSOR per response, and any number of readers)
+	readerKinds bool
+	inner       restful.CompressorProvider
+	mu          sync.Mutex
+	ids         map[interface{}]int
+	cur         *reqLog // sequential drivers: the request in flight
+	trap        bool
 }
 
 func (p *ledgerProvider) event(k string, obj interface{}) {
@@ -214,11 +243,19 @@ func (p *ledgerProvider) ReleaseGzipWriter(w *gzip.Writer) {
 }
 func (p *ledgerProvider) AcquireGzipReader() *gzip.Reader {
 	r := p.inner.AcquireGzipReader()
-	p.event("acq", r)
+	if p.readerKinds {
+		p.event("racq", r)
+	} else {
+		p.event("acq", r)
+	}
 	return r
 }
 func (p *ledgerProvider) ReleaseGzipReader(r *gzip.Reader) {
-	p.event("rel", r)
+	if p.readerKinds {
+		p.event("rrel", r)
+	} else {
+		p.event("rel", r)
+	}
 	p.inner.ReleaseGzipReader(r)
 }
 func (p *ledgerProvider) AcquireZlibWriter() *zlib.Writer {
@@ -325,6 +362,24 @@ func genFilter(i int, script string, fwrites bool, nAll int, svcTag string) rest
 			l.add(devent{K: "pass", F: i, Rq: l.id(req), Rs: l.id(resp)})
 			restful.HttpMiddlewareHandlerToFilter(mw)(req, resp, chain)
 			l.add(devent{K: "ret", F: i})
+		case "buffer":
+			// a buffering filter: the rest of the chain writes into a buffer that is copied out afterwards (a panic
+			// further down skips the copy; the recover handler must still reach the client)
+			req.SetAttribute(fmt.Sprintf("f%d", i), 1)
+			req.SetAttribute("who", i)
+			orig := resp.ResponseWriter
+			bw := &bufferWriter{hdr: orig.Header()}
+			resp.ResponseWriter = bw
+			l.add(devent{K: "pass", F: i, Rq: l.id(req), Rs: l.id(resp), Who: i})
+			chain.ProcessFilter(req, resp)
+			l.add(devent{K: "ret", F: i})
+			resp.ResponseWriter = orig
+			if bw.status != 0 {
+				orig.WriteHeader(bw.status)
+			}
+			if bw.buf.Len() > 0 {
+				orig.Write(bw.buf.Bytes())
+			}
 		case "cors":
 			// a real CORS filter (actual requests only: it passes control on exactly once, whatever the Origin)
 			req.SetAttribute(fmt.Sprintf("f%d", i), 1)
@@ -466,6 +521,10 @@ func buildChainContainer(cs chainCase, instrument bool) *restful.Container {
 		l.add(devent{K: "target", F: 0, Rq: l.id(req), Rs: l.id(resp), At: seenAttrs(req, req.Request, nAll), Who: whoOf(req)})
 		if !ownsRequest("s", req.Request) {
 			l.add(devent{K: "enter", F: 99})
+		}
+		if cs.ReadPanic && req.Request.Header.Get("Content-Encoding") == "gzip" {
+			var p panicky
+			req.ReadEntity(&p) // panics below ReadEntity, while a pooled gzip reader is held
 		}
 		if cs.Tgt == "panic" {
 			l.add(devent{K: "panic", F: 0})
@@ -657,7 +716,7 @@ func runChainCase(tw *traceWriter, cs chainCase, rid *int) {
 	if cs.Payload == 0 && cs.Chunks == 0 {
 		cs.Payload, cs.Chunks = 40, 2
 	}
-	prov := &ledgerProvider{inner: makeProvider(cs.Provider), ids: map[interface{}]int{}, trap: true}
+	prov := &ledgerProvider{inner: makeProvider(cs.Provider), ids: map[interface{}]int{}, trap: true, readerKinds: true}
 	restful.SetCompressorProvider(prov)
 	defer restful.SetCompressorProvider(restful.NewSyncPoolCompessors())
 	c := buildChainContainer(cs, true)
@@ -686,7 +745,13 @@ func runChainCase(tw *traceWriter, cs chainCase, rid *int) {
 			condHdr = "1"
 		}
 		copyMode = cs.Copy
-		hr, err := buildRequest(method, path, [][2]string{{"X-Rid", id}, {"Accept-Encoding", cs.AE}, {"X-Alt", altHdr}, {"X-Cond-Panic", condHdr}, {"Origin", cs.Origin}}, nil, false)
+		hdrs := [][2]string{{"X-Rid", id}, {"Accept-Encoding", cs.AE}, {"X-Alt", altHdr}, {"X-Cond-Panic", condHdr}, {"Origin", cs.Origin}}
+		var reqBody []byte
+		if cs.ReadPanic && routedLike && cs.Entry != "NET" {
+			reqBody = gzipBytes([]byte(`{"x":1}`))
+			hdrs = append(hdrs, [2]string{"Content-Encoding", "gzip"}, [2]string{"Content-Type", "application/json"})
+		}
+		hr, err := buildRequest(method, path, hdrs, reqBody, false)
 		if err != nil {
 			fatal("bad request: %v", err)
 		}
@@ -964,7 +1029,31 @@ func randomChainCase(r *rand.Rand, mode string) chainCase {
 		cs.Conc = 8
 	}
 	cs.Alt = r.Intn(3) == 0
-	if mode == "panic" && r.Intn(8) == 0 {
+	if mode == "panic" && r.Intn(6) == 0 {
+		// the panic comes from below Request.ReadEntity (the target does not panic by itself)
+		cs.ReadPanic, cs.Tgt, cs.Alt = true, "ok", false
+		for i := range cs.Sc {
+			if cs.Sc[i] == "pb" || cs.Sc[i] == "pa" || cs.Sc[i] == "stop" {
+				cs.Sc[i] = "pass"
+			}
+		}
+	}
+	if mode == "panic" {
+		// a buffering filter somewhere: nothing may be written below it before the panic (the bytes would stay in its buffer)
+		if k := r.Intn(2 * (n + 1)); k < n && cs.Sc[k] == "pass" && !cs.ReadPanic {
+			cs.Sc[k] = "buffer"
+			cs.FWrites = false
+			if cs.Tgt == "panicAfterWrite" {
+				cs.Tgt = "panic"
+			}
+			for i := range cs.Sc {
+				if cs.Sc[i] == "pa" {
+					cs.Sc[i] = "pb"
+				}
+			}
+		}
+	}
+	if mode == "panic" && r.Intn(8) == 0 && !cs.ReadPanic {
 		cs.CondPanic = true
 		for i := range cs.Sc {
 			if cs.Sc[i] == "pb" || cs.Sc[i] == "pa" || cs.Sc[i] == "stop" {
